@@ -436,6 +436,13 @@ Lemma cache_get_upd s s' k l : cache s' = aset k l (cache s) ->
   forall x, cache_get s' x = if x =? k then l else cache_get s x.
 Proof. intros H x; unfold cache_get; rewrite H, alookup_aset. now destruct (x =? k). Qed.
 
+Lemma cache_get_renew1 s s' old new l : cache s' = cdel old (aset new l (cache s)) ->
+  forall x, cache_get s' x = if x =? old then [] else if x =? new then l else cache_get s x.
+Proof.
+  intros H x; unfold cache_get; rewrite H, alookup_cdel.
+  destruct (x =? old); [reflexivity|]. rewrite alookup_aset. now destruct (x =? new).
+Qed.
+
 (* tables and cache untouched *)
 Lemma inv_frame s s' :
   Inv s -> t1 (dbs s') = t1 (dbs s) -> t2 (dbs s') = t2 (dbs s) -> nsec (dbs s') = nsec (dbs s) ->
